@@ -556,6 +556,14 @@ def rp_history(ctx, rng, n):
 
 
 # ======================================================================================== (4) ImpExp codec
+def short(s):
+    """long opaque strings (token values, keys) are replaced by a digest on both sides: literals stay small"""
+    if len(s) > 100 and not s.startswith("BYTES:"):
+        import hashlib
+        return "LONG:" + hashlib.sha1(s.encode("utf-8", "replace")).hexdigest()
+    return s
+
+
 def cv(v):
     """Python value -> Gallina pyval (Message instances become the model's message objects)"""
     from idpyoidc.message import Message
@@ -566,7 +574,7 @@ def cv(v):
     if isinstance(v, int):
         return "(VInt %s)" % coq_z(v)
     if isinstance(v, str):
-        return "(VStr %s)" % coq_str(v)
+        return "(VStr %s)" % coq_str(short(v))
     if isinstance(v, Message):
         return "(mk_msg %s %s)" % (coq_str(type(v).__module__ + "." + type(v).__name__), cv_items(v.to_dict()))
     if isinstance(v, (list, tuple)):
